@@ -157,6 +157,38 @@ func engineCells(rc *RunCtx) *Outcome {
 		}
 		outputs := mk3(c.COut, oN, oO, oT, ov)
 		model := setupModel(c.Model, params)
+		if k == 0 && !c.Warm {
+			// state initialisation per cell: InitialiseStates(N) of the vectorised model must give
+			// each cell the initial states of that cell alone (parameter sets repeat cyclically)
+			var initAll []float64
+			var initW int
+			func() {
+				defer func() {
+					if r := recover(); r != nil {
+						o.fail("initialise-states-panics", c.Model+"/init-states", "%s: InitialiseStates(%d) with %d parameter sets panicked: %v", c.Model, c.N, c.P, r)
+					}
+				}()
+				st := model.InitialiseStates(c.N)
+				initAll, initW = flat2(st), st.Len(1)
+			}()
+			if o.Class != "" {
+				return o
+			}
+			if initW != width {
+				o.fail("initial-states-differ", c.Model+"/init-states", "%s: InitialiseStates(%d) returns %d states per cell, a single cell has %d", c.Model, c.N, initW, width)
+				return o
+			}
+			for i := 0; i < c.N; i++ {
+				for j := 0; j < width; j++ {
+					o.Checks++
+					if g, e := initAll[i*width+j], c.stateRows[i][j]; !bitsEq(g, e) {
+						o.fail("initial-states-differ", c.Model+"/init-states", "%s: InitialiseStates(%d)[cell %d][%d] = %v, the cell alone (parameter set %d of %d) gets %v", c.Model, c.N, i, j, g, i%c.P, c.P, e)
+						return o
+					}
+				}
+			}
+			o.probe("initialise_states_vectorised")
+		}
 		s := simrt.Run(rc.T, simrt.Config{TraceCap: 0}, rc.S, func() {
 			model.Run(inputs, states, outputs)
 		})
